@@ -101,8 +101,16 @@ func (p *PacketProcessor) ProcessPacketData(data []byte, _ *gopacket.CaptureInfo
 	return
 }
 
+// validPacket reports whether exactly the header chain Ethernet, IPv4, ICMPv4
+// (or IPv4, ICMPv4 in VPN mode) was decoded: only then all rcv* layers
+// describe the current packet
 func validPacket(decoded []gopacket.LayerType) bool {
-	return len(decoded) == 3 || (len(decoded) == 2 && decoded[0] == layers.LayerTypeIPv4)
+	if len(decoded) == 3 {
+		return decoded[0] == layers.LayerTypeEthernet &&
+			decoded[1] == layers.LayerTypeIPv4 && decoded[2] == layers.LayerTypeICMPv4
+	}
+	return len(decoded) == 2 &&
+		decoded[0] == layers.LayerTypeIPv4 && decoded[1] == layers.LayerTypeICMPv4
 }
 
 type PacketFiller struct {
